@@ -11,6 +11,7 @@ import (
 	"sync"
 	"math/rand"
 	"os"
+	"path/filepath"
 	"runtime"
 	"strconv"
 	"strings"
@@ -35,27 +36,65 @@ func init() {
 // case then costs minutes, not hours.
 func ioMarker() string { return fmt.Sprintf("%s/io-blocked-%d", c13TmpDir(), os.Getppid()) }
 
+// ioShortened: a request of this run was already found blocked (marker written during the life of the
+// parent process — pids are reused), so the run has failed and later requests wait only briefly
+func ioShortened() bool {
+	st, err := os.Stat(ioMarker())
+	if err != nil {
+		return false
+	}
+	ps, err := os.Stat(fmt.Sprintf("/proc/%d", os.Getppid()))
+	return err == nil && st.ModTime().After(ps.ModTime())
+}
+
 func ioDeadline(ms int) time.Duration {
-	// the marker counts only if it was written during the life of the parent process (pids are reused)
-	if st, err := os.Stat(ioMarker()); err == nil {
-		if ps, err := os.Stat(fmt.Sprintf("/proc/%d", os.Getppid())); err == nil && st.ModTime().After(ps.ModTime()) {
-			if ms > 500 {
-				ms = 500
-			}
-		}
+	if ioShortened() && ms > 500 {
+		ms = 500
 	}
 	return time.Duration(ms) * time.Millisecond
 }
 
-func ioBlocked() {
-	_ = os.WriteFile(ioMarker(), []byte("a library call did not return within its deadline\n"), 0o644)
-	runner.TimeoutNow()
+// ioBlocked ends the request as `timeout` with the reason and detail fields; `files` are the temporary files
+// of the request (the deferred removals do not run on this path). Markers of runs whose parent process is
+// gone are removed. Does not return.
+func ioBlocked(files []string, reason string, detail ...string) {
+	for _, f := range files {
+		_ = os.Remove(f)
+	}
+	kind := "blocked"
+	if ioShortened() {
+		kind = "blocked-followon" // judged with the 500 ms deadline of an already failed run
+	}
+	if ms, err := os.ReadDir(c13TmpDir()); err == nil {
+		for _, m := range ms {
+			var pid int
+			if _, err := fmt.Sscanf(m.Name(), "io-blocked-%d", &pid); err == nil {
+				if _, err := os.Stat(fmt.Sprintf("/proc/%d", pid)); err != nil {
+					_ = os.Remove(c13TmpDir() + "/" + m.Name())
+				}
+			}
+		}
+	}
+	_ = os.WriteFile(ioMarker(), []byte(reason+"\n"), 0o644)
+	runner.TimeoutNow(append([]string{kind, reason}, detail...)...)
 }
 
+// c13TmpDir: VERIF_TMP, else <build>/tmp next to the <build>/bin the executable lives in (so that a check run
+// from a scratch copy of /verif keeps its files inside that copy), else /verif/build/tmp
 func c13TmpDir() string {
 	d := os.Getenv("VERIF_TMP")
 	if d == "" {
 		d = "/verif/build/tmp"
+		if exe, err := os.Executable(); err == nil {
+			dir := filepath.Dir(exe)
+			for i := 0; i < 3 && dir != "/" && dir != "."; i++ {
+				if filepath.Base(dir) == "bin" {
+					d = filepath.Join(filepath.Dir(dir), "tmp")
+					break
+				}
+				dir = filepath.Dir(dir)
+			}
+		}
 	}
 	_ = os.MkdirAll(d, 0o755)
 	return d
@@ -267,6 +306,7 @@ func c13Stream(args []string) ([]string, error) {
 	text := args[4]
 	ch := make(chan fasta.Fasta, capacity)
 	done := make(chan interface{}, 1)
+	var tmpFiles []string
 	switch args[0] {
 	case "mem":
 		go func() {
@@ -306,6 +346,7 @@ func c13Stream(args []string) ([]string, error) {
 		path, err := c13TempFile([]byte(text), c13GzKind(args[0]))
 		if path != "" {
 			defer os.Remove(path)
+			tmpFiles = append(tmpFiles, path)
 		}
 		if err != nil {
 			return nil, err
@@ -363,7 +404,15 @@ recvLoop:
 			}
 			got = append(got, f)
 		case <-deadline:
-			ioBlocked() // the channel was neither fed nor closed: does not return
+			// the channel was neither fed nor closed; a producer that panicked is reported as such
+			select {
+			case p := <-done:
+				if p != nil {
+					return nil, fmt.Errorf("producer goroutine panicked (channel never closed): %v", p)
+				}
+			default:
+			}
+			ioBlocked(tmpFiles, "channel neither fed nor closed within the deadline", "received="+strconv.Itoa(len(got)))
 		}
 	}
 	closedOnce := true
